@@ -455,6 +455,13 @@ theorem dependency_packages_scanned :
      "github.com/evolbioinfo/goalign/io/phylip", "github.com/fredericlemoine/bitset",
      "github.com/fredericlemoine/gostats"].all (Gen.C18Sites.depPackages.contains ·) = true := by decide
 
+/-- "several threads": the files of package cmd that read the thread count are exactly those of the reviewed
+    table `threadCommands`, whose commands all have a run template (the driver checks on every run that the
+    named template exists and passes -t ≥ 2 in at least one generated request) -/
+theorem threads_covered :
+    Gen.C18Sites.cpuFiles = (threadCommands.map (·.1)).eraseDups ∧
+    threadCommands.all (fun r => templateCommands.contains r.2.1) = true := by decide
+
 /-! ### the hypotheses are satisfiable on non-trivial maps -/
 
 example : nodupKeys [("t1", "A"), ("t2", "B"), ("t3", "A"), ("t4", "C"), ("t5", "B"), ("t6", "A"), ("t7", "C"), ("t8", "A")] = true := by decide
